@@ -367,6 +367,17 @@ func matchKnown(k []knownFinding, prop, sig string) *knownFinding {
 			return &k[i]
 		}
 	}
+	// C11 and C13 re-evaluate the invariants of C01-C05 on their own
+	// histories and file them as "<prop> Cxx <signature of Cxx>": a known
+	// finding of the origin property is the same known finding there.
+	if rest := strings.TrimPrefix(sig, prop+" "); rest != sig && len(rest) > 4 && rest[0] == 'C' && rest[3] == ' ' {
+		origin := rest[:3]
+		for i := range k {
+			if k[i].Status == "known" && k[i].Property == origin && k[i].Signature == origin+" "+rest[4:] {
+				return &k[i]
+			}
+		}
+	}
 	return nil
 }
 
